@@ -39,7 +39,9 @@ REQUIRED_REACH = ["remote_resources.py:RemoteResourceHTTPS.download.<locals>._do
 REQUIRED_COUNTERS = {"C19.faults_delivered": 20, "C19.crash_points": 50, "C19.exit_crashes": 3,
                      "C19.bigreq_completion_order_differs_from_request_order": 1, "C19.builtin_https_faults": 10}
 TIMEOUT = {"quick": 900, "thorough": 3600}
-OPS = {"gA": ["A"], "gAB": ["A", "B"], "gABC": ["A", "B", "C"], "reopen": None}
+OPS = {"gA": ["A"], "gAB": ["A", "B"], "gABC": ["A", "B", "C"], "reopen": None,
+       # the same URI twice in one request (e.g. a list assembled from overlapping queries)
+       "gABA": ["A", "B", "A"]}
 FAULTS = ["notfound", "raise-before", "raise-half", "postprocess", "validation", "validation+notfound",
           "validation-after-accept"]
 MAXLEN = {"quick": 2, "thorough": 3}
